@@ -848,7 +848,7 @@ func (s *pidwindow) pushAndValidate(epoch int16, firstSeq, numRecs int32, baseOf
 		if s.seen && firstSeq != 0 {
 			return false, false, 0
 		}
-		next := int32((int64(firstSeq) + int64(numRecs)) % math.MaxInt32)
+		next := int32((int64(firstSeq) + int64(numRecs)) % (math.MaxInt32 + 1)) // sequences wrap modulo 2^31
 		s.seen = true
 		s.epoch = epoch
 		s.nextSeq = next
@@ -860,7 +860,7 @@ func (s *pidwindow) pushAndValidate(epoch int16, firstSeq, numRecs int32, baseOf
 	}
 
 	// Dup check: scan valid entries for a matching (firstSeq, nextSeq) pair.
-	next := int32((int64(firstSeq) + int64(numRecs)) % math.MaxInt32)
+	next := int32((int64(firstSeq) + int64(numRecs)) % (math.MaxInt32 + 1)) // sequences wrap modulo 2^31
 	for i := range s.count {
 		e := s.entries[i]
 		if e.firstSeq == firstSeq && e.nextSeq == next {
